@@ -75,8 +75,8 @@ class Report:
             "known_findings_seen": sorted(known.keys()),
         }
         if self.exhaustive is not None:
-            cov["exhaustive"] = self.exhaustive
-        cov.update(self.notes)
+            cov["exhaustive"] = bool(self.exhaustive)
+        cov.update({k: v for k, v in self.notes.items() if k not in cov})    # notes never overwrite the schema's keys
         ev = {"property_id": self.pid, "tier": self.tier, "seed": self.seed, "level": "model_checking",
               "coverage": cov, "assumptions": self.assumptions,
               "wall_s": round(time.time() - self.t0, 2), "violations": len(seen)}
